@@ -37,7 +37,22 @@ def long_runs(n, blank=' '):
             '.byte ' + '(' * n + '1' + ')' * n, '.byte ' + '(' * n + '1', '.byte ' + '-' * n + '1',
             '.byte ' + '+'.join(['1'] * n), '.byte ' + ','.join(['1'] * n) + ' x', '.2byte ' + 'L' * (n * 5),
             '.cstr "' + 'a' * (n * 5) + '"', '.cstr "' + 'a' * (n * 5), 'K_run2 = ' + '1' * n + 'x',
-            '.byte ' + 'BYTE0(' * min(n, 200) + '1' + ')' * min(n, 200), '.byte 1' + ' ;' * n, 'l' * n + ':' + B + 'l' * n + ':']
+            '.byte ' + 'BYTE0(' * min(n, 200) + '1' + ')' * min(n, 200), '.byte 1' + ' ;' * n, 'l' * n + ':' + B + 'l' * n + ':',
+            # long conditional chains and deep nesting (work must not multiply per branch / level)
+            '\n'.join(['#if 0', '.byte 1'] + ['#elif 0\n.byte 2'] * min(n, 120) + ['#else', '.byte 3', '#endif']),
+            '\n'.join(['#if 0', '.byte 1'] + ['#elif 0\n.byte 2'] * min(n, 120) + ['#elif 1', '.byte 3', '#endif']),
+            '\n'.join(['#ifdef NOT_DEF_RUN', '.byte 1'] + ['#elif NOT_DEF_RUN == 3\n.byte 2'] * min(n, 120) + ['#endif']),
+            '\n'.join(['#if 1'] * min(n, 300) + ['.byte 1'] + ['#endif'] * min(n, 300)),
+            '\n'.join(['#if 0'] * min(n, 300) + ['.byte 1'] + ['#endif'] * min(n, 300)),
+            '\n'.join([f'#define RUN_S{i_} RUN_S{i_ + 1}' for i_ in range(min(n, 300))] + [f'#define RUN_S{min(n, 300)} 7', '.byte RUN_S0']),
+            '\n'.join(['#mute'] * min(n, 500) + ['.byte 1'] + ['#unmute'] * min(n, 500))]
+
+
+def _maybe_muted(rng, ins):
+    """a faulty statement is faulty also where nothing is emitted: a quarter of the planted faults sit inside #mute .. #unmute"""
+    if rng.random() < 0.25 and not ins.startswith('#mute'):
+        return '#mute\n' + ins + '\n' + rng.choice(['#unmute', '#emit'])
+    return ins
 
 
 def corrupt(rng, lines, kind):
@@ -103,7 +118,7 @@ def corrupt(rng, lines, kind):
     if kind == 'garble-after-statement':
         i = rng.choice(code_idx)
         ins = rng.choice(['nop xyzzy 1', 'lbl_gx: frob 2', 'inr a blorp', 'K_g = 5 zorch', '.byte 1 wibble', 'nop nop qqq7'])
-        L.insert(i, ins)
+        L.insert(i, _maybe_muted(rng, ins))
         return L, 'unknown-instruction', pos_tag(i)
     if kind == 'undefined-label':
         i = rng.choice(code_idx)
@@ -112,7 +127,7 @@ def corrupt(rng, lines, kind):
                           '.zero nope_cnt', '.zerountil not_defined_addr', '#mute\n.byte muted_undefined_ref\n#unmute',
                           '.org undefined_origin', '.align undefined_page', 'K_bad = undefined_in_constant + 1',
                           'mv2 a, unknown_imm', 'ldx [sp+undefined_off]', 'lix sp+undefined_idx'])
-        L.insert(i, ins)
+        L.insert(i, _maybe_muted(rng, ins))
         return L, 'unresolvable-label', pos_tag(i)
     if kind == 'no-variant':
         i = rng.choice(code_idx)
@@ -121,13 +136,13 @@ def corrupt(rng, lines, kind):
                           # stray commas: an empty position in the operand list is not "no operand"
                           'mv2 a,,1', 'mv2 a, 1,', 'mv2 ,a, 1', 'inr a,', 'nop ,', 'ldi 5,', 'ldi ,5', 'mv2 a, ,1', 'inr ,', 'ldi ,',
                           'mv2 a,, 1', 'inr a ,'])
-        L.insert(i, ins)
+        L.insert(i, _maybe_muted(rng, ins))
         return L, 'no-variant-accepts', pos_tag(i)
     if kind == 'value-overflow':
         i = rng.choice(code_idx)
         ins = rng.choice(['ldi 256', 'ldi -129', 'nib 16', 'tri 4096', 'jmp 65536', 'q12 300', 'ldi $1ff', 'nib -9', 'ldx [sp+256]',
                           'mv2 a, 1000', 'tri -2049'])
-        L.insert(i, ins)
+        L.insert(i, _maybe_muted(rng, ins))
         return L, 'value-does-not-fit-field', pos_tag(i)
     if kind == 'unbalance':
         i = rng.choice(code_idx)
@@ -179,6 +194,15 @@ def corrupt(rng, lines, kind):
         i = rng.choice(code_idx)
         L.insert(i, ins)
         return L, None, pos_tag(i)
+    if kind == 'only-zero-length':
+        # a program whose byte-producing lines all have length zero (with labels, constants, comments around them)
+        zs = [rng.choice(ZERO_LEN) for _ in range(rng.randrange(1, 5))]
+        P = [rng.choice(['.org 0', '.org 16', '; zero length only'])]
+        for z in zs:
+            P.append(z)
+            if rng.random() < 0.4:
+                P.append(rng.choice(['zl_lbl%d:' % len(P), 'ZL_K%d = 5' % len(P), '; c', '']))
+        return P, None, 'whole'
     if kind == 'empty-file':
         return [], None, 'whole'
     if kind == 'comments-only':
@@ -190,7 +214,7 @@ def corrupt(rng, lines, kind):
 
 CORRUPTIONS = ['none', 'garble-after-statement', 'drop-token', 'dup-token', 'swap-token', 'truncate-line', 'drop-line', 'dup-line', 'swap-line',
                'garble-mnemonic', 'undefined-label', 'no-variant', 'value-overflow', 'unbalance', 'zero-length', 'junk', 'empty-file',
-               'comments-only', 'long-run', 'odd-spacing']
+               'comments-only', 'long-run', 'odd-spacing', 'only-zero-length']
 
 
 class C14(core.Check):
@@ -225,7 +249,9 @@ class C14(core.Check):
             argv += ['-p', '-t', fmt, '--pretty-print-output', 'pp.txt']
         nlines = src.count('\n') + 1
         return {'runs': [{'files': files, 'argv': argv, 'probes': ['steps', 'files'],
-                          'step_limit': 200 * nlines + 60000, 'cpu_s': 20}],
+                          # linear work per line plus a quadratic allowance (conditional chains walk their lineage);
+                          # what the bound has to stop is work that multiplies per token or per branch
+                          'step_limit': min(200 * nlines + 60000 + 60 * nlines * nlines, 8_000_000), 'cpu_s': 20}],
                 'meta': {'planted': planted, 'out': out, 'missing_dir': missing_dir, 'nlines': nlines},
                 'tags': sorted(tags)}
 
@@ -265,8 +291,11 @@ class C14(core.Check):
                 for k, ins in enumerate(long_runs(n_, blank)):
                     at = [0, len(lines) // 2, len(lines)][k % 3]
                     L = lines[:at] + [ins] + lines[at:]
-                    yield self.make({fn: itext}, fn, 'p.asm', '\n'.join(L) + '\n', None, None,
-                                    {'corruption:long-run', 'fmt:None', 'long-run:directed', 'pos:' + ['first', 'middle', 'last'][k % 3]})
+                    c_ = self.make({fn: itext}, fn, 'p.asm', '\n'.join(L) + '\n', None, None,
+                                   {'corruption:long-run', 'fmt:None', 'long-run:directed', 'pos:' + ['first', 'middle', 'last'][k % 3]})
+                    # linear and quadratic work is fine; the bound only has to stop work that multiplies per element
+                    c_['runs'][0]['step_limit'] = 6_000_000
+                    yield c_
         odd = ['spaced_lbl : nop', 'spaced_lbl2 :', 'spaced_lbl3\t: ldi 1', '.sp_loc : nop', '_sp_file : .byte 1', 'K_sp=5', 'K_sp2 =5',
                'K_sp4  EQU  5', '.byte 1 , 2', 'mv2 a ,1', 'ldx [ sp + 1 ]', 'bra { spaced_t }', 'spaced_t : spaced_u : nop',
                'spaced_v:spaced_w:nop', ': nop', 'nop :', '= 5', 'K_sp5 = = 5', 'lbl_sp6 : = 5', '. byte 1', '# if 1\n#endif']
